@@ -130,8 +130,15 @@ func c20Check(c c20Case) (*eng.Fail, string) {
 		if fmt.Sprintf("%x", got) != fmt.Sprintf("%x", expNE) {
 			return &eng.Fail{Sig: part.name + " content", What: fmt.Sprintf("%s yields blocks %x, file describes %x", part.name, got, expNE), Case: c}, ""
 		}
-		// address lookup over the universe
+		// address lookup over the universe, ascending and then descending (a lookup must not depend on the previous one)
+		var order []uint64
 		for a := uint64(0xff8); a <= 0x1020; a++ {
+			order = append(order, a)
+		}
+		for a := uint64(0x1020); a >= 0xff8; a -= 3 {
+			order = append(order, a)
+		}
+		for _, a := range order {
 			var want []byte
 			for _, e := range expNE {
 				if a >= e.begin && a < e.begin+uint64(len(e.data)) {
